@@ -18,6 +18,7 @@ def run(ctx):
     rt_pred = ctx.known_match.get("KF-C10-1")
     ctx.known_match["KF-C10-1"] = lambda case, msg: _kf1_vc(case, msg) if not isinstance(case, dict) or "ref_0_0_0" in case else (rt_pred(case, msg) if rt_pred else False)
     api.run_vcs(ctx, C10_vc.p_vcs(ctx), {"C10.P.fixed_windows": "real slice_spect_data source, policy 'fixed' without in_lens, for SYMBOLIC batch size and frames (lobe size enumerated): exactly the windows the documented policy prescribes, in order, each labelled with its row"})
+    api.run_vcs(ctx, C10_vc.tok_p_vcs(ctx), {"C10.P.tok_chunks": "real chunk_token_sequences_by_slices source for a SYMBOLIC batch size and number of tokens (lengths given; contained / overlapping; boundaries retained or not): reported count = number of kept tokens; every kept token lands at the position given by the number of kept tokens before it with its id (and, retained, its boundaries) unchanged"})
     api.run_vcs(ctx, C10_vc.vcs(ctx), {"C10.S.tok_chunks": "real chunk_token_sequences_by_slices source: kept tokens = contained (or overlapping) known segments, in order, ids unchanged, boundaries slice-relative unless retained, count = chunked_lens; all contents"},
                 bounded="shapes (N,R) in %s, partial x retain x ref_lens given/omitted; ALL token ids, boundaries, slices, lengths" % ("{(1,2),(2,1)}" if ctx.quick else "{(1,1),(1,2),(1,3),(2,2)}"))
     C10_rt.run_bounded(ctx)
